@@ -378,7 +378,7 @@ pub fn run(ctx: &RunCtx) -> i32 {
         println!("INFRA property=C19 scratch filesystem round-trips only {} of the candidate time values", usable);
         return 2;
     }
-    let (stats, failure) = run_sharded(ctx, "times", ctx.tier.pick(30_000, 400_000), strategy, test);
+    let (stats, failure) = run_sharded(ctx, "times", ctx.tier.pick(30_000, 2_000_000), strategy, test);
     let pre_epoch_subsec = usable_times().iter().filter(|(s, n)| *s < 0 && *n != 0).count();
     write_evidence(ctx, "exploration", RULE, &stats, json!({"regress_replayed": reg.replayed, "usable_time_values": usable, "usable_pre_epoch_with_subsec": pre_epoch_subsec}), &["time values the host filesystem cannot round-trip natively are outside the generator's domain", "OverlayFS setters on lower-only entries are only observed (they return FileNotFound), see DESIGN section 4"], failure.is_some() as u32);
     finish(ctx, &stats, &failure, &[("distinct_nontrivial", 100), ("base:mem", 100), ("base:phys", 100), ("setters_not_supported_verified", 50)])
